@@ -14,6 +14,7 @@ HB = os.path.join(BUILD, "harness")
 SPEC = os.path.join(VERIF, "spec")
 NCPU = os.cpu_count() or 4
 TLA_CP = "/opt/veriftools/tla/tla2tools.jar:/opt/veriftools/tla/CommunityModules-deps.jar"
+DEFAULT_TLC_WORKERS = int(os.environ.get("VERIF_TLC_WORKERS", "6"))   # several checks may run at once: do not take all cores
 SG_TARGETS = ["simgrid", "simgrid-mc", "sthread", "smpimain", "smpireplaymain"]
 
 
@@ -124,6 +125,7 @@ def build_driver(name, sources, kind="s4u", extra=None):
         if not stale:
             return out
         extra = extra or []
+        final, out = out, out + ".tmp%d" % os.getpid()     # build aside, then rename: running copies are never overwritten
         if kind == "s4u":
             cmd = ["g++", "-std=c++17", "-O1", "-g0", "-DSIMGRID_VERIF", "-MMD", "-MF", dep, "-MT", out] + INCLUDES + \
                 ["-o", out] + srcs + ["-L" + SG + "/lib", "-lsimgrid", "-Wl,-rpath," + SG + "/lib", "-lpthread"] + extra
@@ -139,6 +141,8 @@ def build_driver(name, sources, kind="s4u", extra=None):
         rc, o, e = sh(cmd, timeout=900)
         if rc != 0:
             raise InfraError("driver build failed: %s\n%s\n%s" % (" ".join(cmd), o[-3000:], e[-6000:]))
+        os.replace(out, final)
+        out = final
     return out
 
 
@@ -178,11 +182,11 @@ def tlc(module, cfg=None, env=None, workers=None, timeout=600, simulate=None, de
     if own_meta:
         metadir = os.path.join(BUILD, "tlc", "m%d_%d" % (os.getpid(), random.randrange(1 << 30)))
     os.makedirs(metadir, exist_ok=True)
-    jopts = ["-XX:+UseParallelGC", "-Xmx" + xmx]
+    jopts = ["-XX:+UseParallelGC", "-XX:ParallelGCThreads=2", "-XX:CICompilerCount=2", "-Xmx" + xmx]
     if dfs:
         jopts.append("-Dtlc2.tool.queue.IStateQueue=StateDeque")
     cmd = ["java"] + jopts + ["-cp", TLA_CP, "tlc2.TLC", "-metadir", metadir, "-noGenerateSpecTE",
-                              "-workers", str(workers or "auto"), "-config", cfg]
+                              "-workers", str(workers or DEFAULT_TLC_WORKERS), "-config", cfg]
     if not deadlock:
         cmd.append("-deadlock")
     if simulate:
